@@ -13,7 +13,7 @@ namespace SoyVerif.Lemmas.ParserSafe
 open SoyVerif SoyVerif.Model SoyVerif.Model.Parser SoyVerif.Model.FileParser
 
 section
-variable (AP EL : Prop) (S : Item → Prop) (pf : Bytes → Option UInt64) (ef N : Nat)
+variable (AP : Prop) (EL : Lvl) (S : Item → Prop) (pf : Bytes → Option UInt64) (ef N : Nat)
 
 /-- plain post-condition: invariant kept, no real token un-consumed -/
 def FPost (st : FState) {α : Type} : α → FState → Prop :=
@@ -21,7 +21,7 @@ def FPost (st : FState) {α : Type} : α → FState → Prop :=
 
 /-- post-condition of `itemList`: a well-shaped list; the token that ended it may be backed up -/
 def ListPost (untl : List ItemType) (st : FState) : Node → FState → Prop :=
-  fun r st' => listOK r ∧ Inv EL S st'.p ∧ st'.p.peekCount ≤ 1 ∧ mu st'.p + real (top st'.p) ≤ mu st.p ∧
+  fun r st' => listOK r ∧ InvW EL S st'.p ∧ st'.p.peekCount ≤ 1 ∧ mu st'.p + real (top st'.p) ≤ mu st.p ∧
     untl.contains (top st'.p).typ = true
 
 /-- post-condition of the command parsers: the node may become a child of a message body -/
@@ -39,41 +39,42 @@ def CasePost (st : FState) : Node → FState → Prop :=
 
 structure FileSpecs (fuel : Nat) : Prop where
   itemListLoop : ∀ untl lpos nodes st, childrenOK nodes → Inv EL S st.p → mu st.p ≤ N → 8 * mu st.p + 20 ≤ fuel →
-    FSafe AP S (itemListLoop pf ef fuel untl lpos nodes) st (ListPost EL S untl st)
-  textOrTag : ∀ token untl st, S token → Inv EL S st.p → st.p.peekCount ≤ 1 → top st.p = token →
+    FSafe AP EL S (itemListLoop pf ef fuel untl lpos nodes) st (ListPost EL S untl st)
+  textOrTag : ∀ token untl st, S token → InvW EL S st.p → st.p.peekCount ≤ 1 → top st.p = token →
     mu st.p + real token ≤ N → 8 * (mu st.p + real token) + 19 ≤ fuel →
-    FSafe AP S (textOrTag pf ef fuel token untl) st (fun r st' => (∀ n, r.1 = some n → childOK n) ∧ Inv EL S st'.p ∧
+    FSafe AP EL S (textOrTag pf ef fuel token untl) st (fun r st' => (∀ n, r.1 = some n → childOK n) ∧
+      (if r.2 = true then InvW EL S st'.p else Inv EL S st'.p) ∧
       (r.2 = true → st'.p.peekCount ≤ 1 ∧ mu st'.p + real (top st'.p) ≤ mu st.p + real token ∧
         untl.contains (top st'.p).typ = true) ∧
       (r.2 = false → mu st'.p + 1 ≤ mu st.p + real token))
   beginTag : ∀ st, Inv EL S st.p → mu st.p ≤ N → 8 * mu st.p + 20 ≤ fuel →
-    FSafe AP S (beginTag pf ef fuel) st (BPost EL S st)
+    FSafe AP EL S (beginTag pf ef fuel) st (BPost EL S st)
   parseTemplate : ∀ token st, Inv EL S st.p → mu st.p ≤ N → 8 * mu st.p + 20 ≤ fuel →
-    FSafe AP S (parseTemplate pf ef fuel token) st (NPost EL S st)
+    FSafe AP EL S (parseTemplate pf ef fuel token) st (NPost EL S st)
   parseLet : ∀ token st, Inv EL S st.p → mu st.p ≤ N → 8 * mu st.p + 20 ≤ fuel →
-    FSafe AP S (parseLet pf ef fuel token) st (NPost EL S st)
+    FSafe AP EL S (parseLet pf ef fuel token) st (NPost EL S st)
   ifLoop : ∀ pos isElse conds st, Inv EL S st.p → mu st.p ≤ N → 8 * mu st.p + 20 ≤ fuel →
-    FSafe AP S (ifLoop pf ef fuel pos isElse conds) st (NPost EL S st)
+    FSafe AP EL S (ifLoop pf ef fuel pos isElse conds) st (NPost EL S st)
   parseFor : ∀ token st, Inv EL S st.p → mu st.p ≤ N → 8 * mu st.p + 20 ≤ fuel →
-    FSafe AP S (parseFor pf ef fuel token) st (NPost EL S st)
-  parseSwitch : ∀ token endT st, endT ≠ .tInvalid → Inv EL S st.p → mu st.p ≤ N → 8 * mu st.p + 19 ≤ fuel →
-    FSafe AP S (parseSwitch pf ef fuel token endT) st (SwPost EL S st)
-  switchLoop : ∀ pos value endT cases st, endT ≠ .tInvalid → casesOK cases → Inv EL S st.p → mu st.p ≤ N → 8 * mu st.p + 20 ≤ fuel →
-    FSafe AP S (switchLoop pf ef fuel pos value endT cases) st (SwPost EL S st)
+    FSafe AP EL S (parseFor pf ef fuel token) st (NPost EL S st)
+  parseSwitch : ∀ token endT st, midT endT = true → Inv EL S st.p → mu st.p ≤ N → 8 * mu st.p + 19 ≤ fuel →
+    FSafe AP EL S (parseSwitch pf ef fuel token endT) st (SwPost EL S st)
+  switchLoop : ∀ pos value endT cases st, midT endT = true → casesOK cases → Inv EL S st.p → mu st.p ≤ N → 8 * mu st.p + 20 ≤ fuel →
+    FSafe AP EL S (switchLoop pf ef fuel pos value endT cases) st (SwPost EL S st)
   caseLoop : ∀ token values st, Inv EL S st.p → mu st.p ≤ N → 8 * mu st.p + 20 ≤ fuel →
-    FSafe AP S (caseLoop pf ef fuel token values) st (CasePost EL S st)
+    FSafe AP EL S (caseLoop pf ef fuel token values) st (CasePost EL S st)
   parseCall : ∀ token st, Inv EL S st.p → mu st.p ≤ N → 8 * mu st.p + 20 ≤ fuel →
-    FSafe AP S (parseCall pf ef fuel token) st (NPost EL S st)
+    FSafe AP EL S (parseCall pf ef fuel token) st (NPost EL S st)
   callParamsLoop : ∀ params st, Inv EL S st.p → mu st.p ≤ N → 8 * mu st.p + 20 ≤ fuel →
-    FSafe AP S (callParamsLoop pf ef fuel params) st (FPost EL S st)
-  orphanLoop : ∀ initial st, S initial → Inv EL S st.p → st.p.peekCount ≤ 1 → top st.p = initial →
+    FSafe AP EL S (callParamsLoop pf ef fuel params) st (FPost EL S st)
+  orphanLoop : ∀ initial st, S initial → InvW EL S st.p → st.p.peekCount ≤ 1 → top st.p = initial →
     8 * (mu st.p + real initial) + 19 ≤ fuel →
-    FSafe AP S (orphanLoop pf ef fuel initial) st (fun tok st' => S tok ∧ Inv EL S st'.p ∧ st'.p.peekCount ≤ 1 ∧
+    FSafe AP EL S (orphanLoop pf ef fuel initial) st (fun tok st' => S tok ∧ InvW EL S st'.p ∧ st'.p.peekCount ≤ 1 ∧
       top st'.p = tok ∧ mu st'.p + real tok ≤ mu st.p + real initial)
   parseMsg : ∀ token st, Inv EL S st.p → mu st.p ≤ N → 8 * mu st.p + 20 ≤ fuel →
-    FSafe AP S (parseMsg pf ef fuel token) st (NPost EL S st)
-  parsePlural : ∀ tok st, S tok → Inv EL S st.p → mu st.p ≤ N → 8 * mu st.p + 20 ≤ fuel →
-    FSafe AP S (parsePlural pf ef fuel tok) st (NPost EL S st)
+    FSafe AP EL S (parseMsg pf ef fuel token) st (NPost EL S st)
+  parsePlural : ∀ tok st, S tok → (EL.lex → valid tok) → Inv EL S st.p → mu st.p ≤ N → 8 * mu st.p + 20 ≤ fuel →
+    FSafe AP EL S (parsePlural pf ef fuel tok) st (NPost EL S st)
 
 variable (hz : S Item.zero) (hN : 8 * N + 10 ≤ ef)
 variable (hwf : ∀ it, S it → AP ∨ WFItem it)
@@ -82,7 +83,7 @@ include hz hN hwf hlex
 
 theorem itemListLoop_ok {fuel : Nat} (ih : FileSpecs AP EL S pf ef N fuel) (untl : List ItemType) (lpos : Option Nat)
     (nodes : NodeList) (st : FState) (hnodes : childrenOK nodes) (hi : Inv EL S st.p) (hn : mu st.p ≤ N) (hf : 8 * mu st.p + 20 ≤ fuel + 1) :
-    FSafe AP S (itemListLoop pf ef (fuel + 1) untl lpos nodes) st (ListPost EL S untl st) := by
+    FSafe AP EL S (itemListLoop pf ef (fuel + 1) untl lpos nodes) st (ListPost EL S untl st) := by
   unfold FileParser.itemListLoop
   apply FSafe.bind
   apply fnext_safe hz hi
@@ -95,11 +96,41 @@ theorem itemListLoop_ok {fuel : Nat} (ih : FileSpecs AP EL S pf ef N fuel) (untl
   cases halt with
   | true =>
     have := hh rfl
-    simp only [if_true]
+    simp only [if_true] at hi2 ⊢
     exact FSafe.pure ⟨hnodes, hi2, this.1, by omega, this.2.2⟩
   | false =>
     have := hc rfl
-    simp only [Bool.false_eq_true, if_false]
+    simp only [Bool.false_eq_true, if_false] at hi2 ⊢
+    split
+    · rename_i n
+      apply (ih.itemListLoop _ _ _ st2 (childrenOK_append _ _ _ rfl hnodes (show childrenOK (.cons n .nil) from ⟨hsh n rfl, trivial⟩)) hi2 (by omega) (by omega)).mono
+      intro r st3 ⟨l, a, b, c, d⟩
+      exact ⟨l, a, b, by omega, d⟩
+    · apply (ih.itemListLoop _ _ _ st2 hnodes hi2 (by omega) (by omega)).mono
+      intro r st3 ⟨l, a, b, c, d⟩
+      exact ⟨l, a, b, by omega, d⟩
+
+/-- the top-level list: its first `next` is the first read of the channel -/
+theorem itemListLoop_ok0 {fuel : Nat} (ih : FileSpecs AP EL S pf ef N fuel) (untl : List ItemType) (lpos : Option Nat)
+    (nodes : NodeList) (st : FState) (hnodes : childrenOK nodes) (hi : Inv0 EL S st.p) (hn : mu st.p ≤ N) (hf : 8 * mu st.p + 20 ≤ fuel + 1) :
+    FSafe AP EL S (itemListLoop pf ef (fuel + 1) untl lpos nodes) st (ListPost EL S untl st) := by
+  unfold FileParser.itemListLoop
+  apply FSafe.bind
+  apply fnext_safe0 hz hi
+  intro token st1 hi1 hs1 hpc1 ht1 hm1 _
+  simp only
+  apply FSafe.bind
+  apply (ih.textOrTag token untl st1 hs1 hi1 (by have := hi.1; omega) ht1 (by omega) (by omega)).mono
+  intro r st2 ⟨hsh, hi2, hh, hc⟩
+  obtain ⟨node, halt⟩ := r
+  cases halt with
+  | true =>
+    have := hh rfl
+    simp only [if_true] at hi2 ⊢
+    exact FSafe.pure ⟨hnodes, hi2, this.1, by omega, this.2.2⟩
+  | false =>
+    have := hc rfl
+    simp only [Bool.false_eq_true, if_false] at hi2 ⊢
     split
     · rename_i n
       apply (ih.itemListLoop _ _ _ st2 (childrenOK_append _ _ _ rfl hnodes (show childrenOK (.cons n .nil) from ⟨hsh n rfl, trivial⟩)) hi2 (by omega) (by omega)).mono
@@ -110,9 +141,10 @@ theorem itemListLoop_ok {fuel : Nat} (ih : FileSpecs AP EL S pf ef N fuel) (untl
       exact ⟨l, a, b, by omega, d⟩
 
 theorem textOrTag_ok {fuel : Nat} (ih : FileSpecs AP EL S pf ef N fuel) (token : Item) (untl : List ItemType)
-    (st : FState) (hs : S token) (hi : Inv EL S st.p) (hpc : st.p.peekCount ≤ 1) (htop : top st.p = token)
+    (st : FState) (hs : S token) (hi : InvW EL S st.p) (hpc : st.p.peekCount ≤ 1) (htop : top st.p = token)
     (hn : mu st.p + real token ≤ N) (hf : 8 * (mu st.p + real token) + 19 ≤ fuel + 1) :
-    FSafe AP S (textOrTag pf ef (fuel + 1) token untl) st (fun r st' => (∀ n, r.1 = some n → childOK n) ∧ Inv EL S st'.p ∧
+    FSafe AP EL S (textOrTag pf ef (fuel + 1) token untl) st (fun r st' => (∀ n, r.1 = some n → childOK n) ∧
+      (if r.2 = true then InvW EL S st'.p else Inv EL S st'.p) ∧
       (r.2 = true → st'.p.peekCount ≤ 1 ∧ mu st'.p + real (top st'.p) ≤ mu st.p + real token ∧
         untl.contains (top st'.p).typ = true) ∧
       (r.2 = false → mu st'.p + 1 ≤ mu st.p + real token)) := by
@@ -123,61 +155,90 @@ theorem textOrTag_ok {fuel : Nat} (ih : FileSpecs AP EL S pf ef N fuel) (token :
   intro tok st1 hs1 hi1 hpc1 ht1 hm1
   split
   · rename_i hu
-    exact FSafe.pure ⟨fun n h => by simp at h, hi1, fun _ => ⟨hpc1, by rw [ht1]; omega, by rw [ht1]; exact hu⟩, fun h => by simp at h⟩
-  · apply FSafe.bind
-    apply fnext_safe hz hi1
-    intro token2 st2 hi2 hs2 hpc2 ht2 hm2 _
-    split
-    · rename_i hu2
-      simp only [Bool.and_eq_true] at hu2
-      exact FSafe.pure ⟨fun n h => by simp at h, hi2, fun _ => ⟨by omega, by rw [ht2]; omega, by rw [ht2]; exact hu2.2⟩, fun h => by simp at h⟩
+    exact FSafe.pure ⟨fun n h => by simp at h, by simpa using hi1, fun _ => ⟨hpc1, by rw [ht1]; omega, by rw [ht1]; exact hu⟩, fun h => by simp at h⟩
+  · by_cases hreal : real tok = 1
     · apply FSafe.bind
-      apply fbackup_safe hi2 (by omega)
-      intro st3 hi3 hm3 _
-      rw [ht2] at hm3
+      apply fnext_safe hz (upw% hi1)
+      intro token2 st2 hi2 hs2 hpc2 ht2 hm2 _
       split
-      · rename_i hc
-        have hr := real_of_beq hc (by decide)
-        apply FSafe.bind
-        apply collectText_safe hz fuel _ st3 _ hi3 (by omega)
-        intro txt nxt st4 hs4 hi4 hpc4 ht4 hm4
-        simp only
-        apply FSafe.bind
-        apply fbackup_safe hi4 hpc4
-        intro st5 hi5 hm5 _
-        rw [ht4] at hm5
-        apply FSafe.bind
-        apply rawtextP_safe
-        intro tv
+      · rename_i hu2
+        simp only [Bool.and_eq_true] at hu2
+        exact FSafe.pure ⟨fun n h => by simp at h, by simpa using hi2, fun _ => ⟨by omega, by rw [ht2]; omega, by rw [ht2]; exact hu2.2⟩, fun h => by simp at h⟩
+      · apply FSafe.bind
+        apply fbackup_safe hi2 (by omega)
+        intro st3 hi3 hm3 _
+        rw [ht2] at hm3
         split
-        · exact FSafe.pure ⟨fun n h => by simp at h, hi5, fun h => by simp at h, fun _ => by omega⟩
-        · exact FSafe.pure ⟨fun n h => by simp only [Option.some.injEq] at h; subst h; trivial, hi5, fun h => by simp at h, fun _ => by omega⟩
+        · rename_i hc
+          have hr := real_of_beq hc (by decide)
+          apply FSafe.bind
+          apply collectText_safe hz fuel _ st3 _ hi3 (by omega)
+          intro txt nxt st4 hs4 hi4 hpc4 ht4 hm4
+          simp only
+          apply FSafe.bind
+          apply fbackup_safe hi4 hpc4
+          intro st5 hi5 hm5 _
+          rw [ht4] at hm5
+          apply FSafe.bind
+          apply rawtextP_safe
+          intro tv
+          split
+          · exact FSafe.pure ⟨fun n h => by simp at h, by simpa using hi5, fun h => by simp at h, fun _ => by omega⟩
+          · exact FSafe.pure ⟨fun n h => by simp only [Option.some.injEq] at h; subst h; trivial, by simpa using hi5, fun h => by simp at h, fun _ => by omega⟩
+        split
+        · rename_i hc
+          have hr := real_of_beq hc (by decide)
+          apply FSafe.bind
+          apply (ih.beginTag st3 hi3 (by omega) (by omega)).mono
+          intro n st4 ⟨hsh4, hi4, hm4⟩
+          exact FSafe.pure ⟨hsh4, by simpa using hi4, fun h => by simp at h, fun _ => by omega⟩
+        split
+        · rename_i hc
+          have hr := real_of_beq hc (by decide)
+          apply FSafe.bind
+          apply soyDocLoop_safe hz _ fuel [] st3 _ hi3 (by omega)
+          intro n st4 hc4 hi4 hm4
+          exact FSafe.pure ⟨fun n' h => by simp only [Option.some.injEq] at h; subst h; exact hc4, by simpa using hi4, fun h => by simp at h, fun _ => by omega⟩
+        · exact funexpected_safe' hs1 (fun hl => ht1 ▸ hi1.valid_top hl)
+    · -- `tok` is the EOF or Error item that ends the stream: the look-ahead `token2` may be
+      -- the zero item of the closed channel, but all that follows is `unexpected(tok)`
+      have hv : EL.lex → valid tok := fun hl => ht1 ▸ hi1.valid_top hl
+      have hr0 : real tok = 0 := by have := real_le tok; omega
+      apply FSafe.bind
+      apply fnext_safe' hz hi1.crude
+      intro token2 st2 hi2 hs2 hpc2 ht2 hm2 _
       split
-      · rename_i hc
-        have hr := real_of_beq hc (by decide)
-        apply FSafe.bind
-        apply (ih.beginTag st3 hi3 (by omega) (by omega)).mono
-        intro n st4 ⟨hsh4, hi4, hm4⟩
-        exact FSafe.pure ⟨hsh4, hi4, fun h => by simp at h, fun _ => by omega⟩
-      split
-      · rename_i hc
-        have hr := real_of_beq hc (by decide)
-        apply FSafe.bind
-        apply soyDocLoop_safe hz _ fuel [] st3 _ hi3 (by omega)
-        intro n st4 hc4 hi4 hm4
-        exact FSafe.pure ⟨fun n' h => by simp only [Option.some.injEq] at h; subst h; exact hc4, hi4, fun h => by simp at h, fun _ => by omega⟩
-      · exact funexpected_safe hi3 hs1
+      · rename_i hu2
+        simp only [Bool.and_eq_true] at hu2
+        have := real_of_beq hu2.1 (by decide)
+        omega
+      · apply FSafe.bind
+        apply fbackup_safe hi2 (by omega)
+        intro st3 hi3 hm3 _
+        split
+        · rename_i hc
+          have := real_of_beq hc (by decide)
+          omega
+        split
+        · rename_i hc
+          have := real_of_beq hc (by decide)
+          omega
+        split
+        · rename_i hc
+          have := real_of_beq hc (by decide)
+          omega
+        · exact funexpected_safe' hs1 hv
 
 
 theorem beginTag_ok {fuel : Nat} (ih : FileSpecs AP EL S pf ef N fuel) (st : FState) (hi : Inv EL S st.p)
     (hn : mu st.p ≤ N) (hf : 8 * mu st.p + 20 ≤ fuel + 1) :
-    FSafe AP S (beginTag pf ef (fuel + 1)) st (BPost EL S st) := by
+    FSafe AP EL S (beginTag pf ef (fuel + 1)) st (BPost EL S st) := by
   unfold FileParser.beginTag
   apply FSafe.bind
   apply fnext_safe hz hi
   intro token st1 hi1 hs1 hpc1 ht1 hm1 _
   have hnot : ∀ (Q : PUnit → FState → Prop), Q PUnit.unit st1 →
-      FSafe AP S (do let st ← get; if st.inmsg = true then FileParser.unexpected token else pure PUnit.unit : FP PUnit) st1 Q := by
+      FSafe AP EL S (do let st ← get; if st.inmsg = true then FileParser.unexpected token else pure PUnit.unit : FP PUnit) st1 Q := by
     intro Q h
     apply FSafe.bind
     apply fget_safe
@@ -189,22 +250,22 @@ theorem beginTag_ok {fuel : Nat} (ih : FileSpecs AP EL S pf ef N fuel) (st : FSt
   · -- namespace
     rename_i ht; have hr := real_of_eq ht (by decide)
     apply FSafe.bind
-    apply parseNamespace_safe hz fuel token st1 _ hi1 (by omega)
+    apply parseNamespace_safe hz fuel token st1 _ (upw% hi1) (by omega)
     intro n st2 hc2 hi2 hm2
     exact FSafe.pure ⟨fun n' h => by cases h; exact hc2, hi2, by omega⟩
   · rename_i ht; have hr := real_of_eq ht (by decide)
     apply FSafe.bind
-    apply (ih.parseTemplate token st1 hi1 (by omega) (by omega)).mono
+    apply (ih.parseTemplate token st1 (upw% hi1) (by omega) (by omega)).mono
     intro n st2 ⟨hc2, hi2, hm2⟩
     exact FSafe.pure ⟨fun n' h => by cases h; first | exact hc2 | (obtain ⟨_, _, _, rfl, _⟩ := hc2; trivial), hi2, by omega⟩
   · rename_i ht; have hr := real_of_eq ht (by decide)
     apply FSafe.bind
-    apply parseHeaderParam_safe hz pf ef N hN hwf hlex token st1 _ hi1 (by omega)
+    apply parseHeaderParam_safe hz pf ef N hN hwf hlex token st1 _ (upw% hi1) (by omega)
     intro n st2 hc2 hi2 hm2
     exact FSafe.pure ⟨fun n' h => by cases h; exact hc2, hi2, by omega⟩
   · rename_i ht; have hr := real_of_eq ht (by decide)
     apply FSafe.bind
-    apply parseHeaderParam_safe hz pf ef N hN hwf hlex token st1 _ hi1 (by omega)
+    apply parseHeaderParam_safe hz pf ef N hN hwf hlex token st1 _ (upw% hi1) (by omega)
     intro n st2 hc2 hi2 hm2
     exact FSafe.pure ⟨fun n' h => by cases h; exact hc2, hi2, by omega⟩
   · -- if
@@ -212,7 +273,7 @@ theorem beginTag_ok {fuel : Nat} (ih : FileSpecs AP EL S pf ef N fuel) (st : FSt
     apply FSafe.bind
     apply hnot
     apply FSafe.bind
-    apply (ih.ifLoop _ _ _ st1 hi1 (by omega) (by omega)).mono
+    apply (ih.ifLoop _ _ _ st1 (upw% hi1) (by omega) (by omega)).mono
     intro n st2 ⟨hc2, hi2, hm2⟩
     exact FSafe.pure ⟨fun n' h => by cases h; first | exact hc2 | (obtain ⟨_, _, _, rfl, _⟩ := hc2; trivial), hi2, by omega⟩
   · -- msg
@@ -220,27 +281,27 @@ theorem beginTag_ok {fuel : Nat} (ih : FileSpecs AP EL S pf ef N fuel) (st : FSt
     apply FSafe.bind
     apply hnot
     apply FSafe.bind
-    apply (ih.parseMsg token st1 hi1 (by omega) (by omega)).mono
+    apply (ih.parseMsg token st1 (upw% hi1) (by omega) (by omega)).mono
     intro n st2 ⟨hc2, hi2, hm2⟩
     exact FSafe.pure ⟨fun n' h => by cases h; first | exact hc2 | (obtain ⟨_, _, _, rfl, _⟩ := hc2; trivial), hi2, by omega⟩
   · -- plural
     rename_i ht; have hr := real_of_eq ht (by decide)
     apply FSafe.bind
-    apply (ih.parsePlural token st1 hs1 hi1 (by omega) (by omega)).mono
+    apply (ih.parsePlural token st1 hs1 (fun _ => real_valid hr) (upw% hi1) (by omega) (by omega)).mono
     intro n st2 ⟨hc2, hi2, hm2⟩
     exact FSafe.pure ⟨fun n' h => by cases h; first | exact hc2 | (obtain ⟨_, _, _, rfl, _⟩ := hc2; trivial), hi2, by omega⟩
   · rename_i ht; have hr := real_of_eq ht (by decide)
     apply FSafe.bind
     apply hnot
     apply FSafe.bind
-    apply (ih.parseFor token st1 hi1 (by omega) (by omega)).mono
+    apply (ih.parseFor token st1 (upw% hi1) (by omega) (by omega)).mono
     intro n st2 ⟨hc2, hi2, hm2⟩
     exact FSafe.pure ⟨fun n' h => by cases h; first | exact hc2 | (obtain ⟨_, _, _, rfl, _⟩ := hc2; trivial), hi2, by omega⟩
   · rename_i ht; have hr := real_of_eq ht (by decide)
     apply FSafe.bind
     apply hnot
     apply FSafe.bind
-    apply (ih.parseFor token st1 hi1 (by omega) (by omega)).mono
+    apply (ih.parseFor token st1 (upw% hi1) (by omega) (by omega)).mono
     intro n st2 ⟨hc2, hi2, hm2⟩
     exact FSafe.pure ⟨fun n' h => by cases h; first | exact hc2 | (obtain ⟨_, _, _, rfl, _⟩ := hc2; trivial), hi2, by omega⟩
   · -- switch
@@ -248,69 +309,69 @@ theorem beginTag_ok {fuel : Nat} (ih : FileSpecs AP EL S pf ef N fuel) (st : FSt
     apply FSafe.bind
     apply hnot
     apply FSafe.bind
-    apply (ih.parseSwitch token _ st1 (by decide) hi1 (by omega) (by omega)).mono
+    apply (ih.parseSwitch token _ st1 (by decide) (upw% hi1) (by omega) (by omega)).mono
     intro n st2 ⟨hc2, hi2, hm2⟩
     exact FSafe.pure ⟨fun n' h => by cases h; first | exact hc2 | (obtain ⟨_, _, _, rfl, _⟩ := hc2; trivial), hi2, by omega⟩
   · -- call
     rename_i ht; have hr := real_of_eq ht (by decide)
     apply FSafe.bind
-    apply (ih.parseCall token st1 hi1 (by omega) (by omega)).mono
+    apply (ih.parseCall token st1 (upw% hi1) (by omega) (by omega)).mono
     intro n st2 ⟨hc2, hi2, hm2⟩
     exact FSafe.pure ⟨fun n' h => by cases h; first | exact hc2 | (obtain ⟨_, _, _, rfl, _⟩ := hc2; trivial), hi2, by omega⟩
   · -- literal
     apply FSafe.bind
-    apply fexpect_safe hz hi1
+    apply fexpect_safe hz (upw% hi1) (by decide)
     intro t2 st2 hi2 _ _ _ hm2 _
     apply FSafe.bind
-    apply fexpect_safe hz hi2
+    apply fexpect_safe hz hi2 (by decide)
     intro t3 st3 hi3 _ _ _ hm3 _
     apply FSafe.bind
-    apply fexpect_safe hz hi3
+    apply fexpect_safe hz hi3 (by decide)
     intro t4 st4 hi4 _ _ _ hm4 _
     apply FSafe.bind
-    apply fexpect_safe hz hi4
+    apply fexpect_safe hz hi4 (by decide)
     intro t5 st5 hi5 _ _ _ hm5 _
     apply FSafe.bind
-    apply fexpect_safe hz hi5
+    apply fexpect_safe hz hi5 (by decide)
     intro t6 st6 hi6 _ _ _ hm6 _
     exact FSafe.pure ⟨fun n' h => by cases h; trivial, hi6, by omega⟩
   · -- css
     apply FSafe.bind
-    apply parseCss_safe hz pf hlex token st1 _ hi1
+    apply parseCss_safe hz pf hlex token st1 _ (upw% hi1)
     intro n st2 hc2 hi2 hm2
     exact FSafe.pure ⟨fun n' h => by cases h; exact hc2, hi2, by omega⟩
   · -- log
     rename_i ht; have hr := real_of_eq ht (by decide)
     apply FSafe.bind
-    apply fexpect_safe hz hi1
+    apply fexpect_safe hz (upw% hi1) (by decide)
     intro t2 st2 hi2 _ _ _ hm2 _
     apply FSafe.bind
     apply (ih.itemListLoop _ _ _ st2 childrenOK_nil hi2 (by omega) (by omega)).mono
-    intro body st3 ⟨_, hi3, _, hm3⟩
+    intro body st3 ⟨_, hi3, _, hm3, hu3⟩
     apply FSafe.bind
-    apply fexpect_safe hz hi3
+    apply fexpect_safe hz (upw% hi3) (by decide)
     intro t4 st4 hi4 _ _ _ hm4 _
     exact FSafe.pure ⟨fun n' h => by cases h; trivial, hi4, by omega⟩
   · -- debugger
     apply FSafe.bind
-    apply fexpect_safe hz hi1
+    apply fexpect_safe hz (upw% hi1) (by decide)
     intro t2 st2 hi2 _ _ _ hm2 _
     exact FSafe.pure ⟨fun n' h => by cases h; trivial, hi2, by omega⟩
   · -- let
     rename_i ht; have hr := real_of_eq ht (by decide)
     apply FSafe.bind
-    apply (ih.parseLet token st1 hi1 (by omega) (by omega)).mono
+    apply (ih.parseLet token st1 (upw% hi1) (by omega) (by omega)).mono
     intro n st2 ⟨hc2, hi2, hm2⟩
     exact FSafe.pure ⟨fun n' h => by cases h; first | exact hc2 | (obtain ⟨_, _, _, rfl, _⟩ := hc2; trivial), hi2, by omega⟩
   · -- alias
     apply FSafe.bind
-    apply parseAlias_safe hz hwf fuel st1 _ hi1 (by omega)
+    apply parseAlias_safe hz hwf fuel st1 _ (upw% hi1) (by omega)
     intro st2 hi2 hm2
     exact FSafe.pure ⟨fun n' h => by simp at h, hi2, by omega⟩
   all_goals first
     | -- special characters
       (apply FSafe.bind
-       apply fexpect_safe hz hi1
+       apply fexpect_safe hz (upw% hi1) (by decide)
        intro t2 st2 hi2 _ _ _ hm2 _
        exact FSafe.pure ⟨fun n' h => by cases h; trivial, hi2, by omega⟩)
     | -- implicit print
@@ -324,7 +385,7 @@ theorem beginTag_ok {fuel : Nat} (ih : FileSpecs AP EL S pf ef N fuel) (st : FSt
        exact FSafe.pure ⟨fun n' h => by cases h; exact hc3, hi3, by omega⟩)
     | -- print
       (apply FSafe.bind
-       apply parsePrint_safe hz pf ef N hN hwf hlex fuel token st1 _ hi1 (by omega) (by omega)
+       apply parsePrint_safe hz pf ef N hN hwf hlex fuel token st1 _ (upw% hi1) (by omega) (by omega)
        intro n st2 hc2 hi2 hm2
        exact FSafe.pure ⟨fun n' h => by cases h; exact hc2, hi2, by omega⟩)
     | exact funexpected_safe hi1 hs1
@@ -332,10 +393,10 @@ theorem beginTag_ok {fuel : Nat} (ih : FileSpecs AP EL S pf ef N fuel) (st : FSt
 
 theorem parseTemplate_ok {fuel : Nat} (ih : FileSpecs AP EL S pf ef N fuel) (token : Item) (st : FState)
     (hi : Inv EL S st.p) (hn : mu st.p ≤ N) (hf : 8 * mu st.p + 20 ≤ fuel + 1) :
-    FSafe AP S (parseTemplate pf ef (fuel + 1) token) st (NPost EL S st) := by
+    FSafe AP EL S (parseTemplate pf ef (fuel + 1) token) st (NPost EL S st) := by
   unfold FileParser.parseTemplate
   apply FSafe.bind
-  apply fexpect_safe hz hi
+  apply fexpect_safe hz hi (by decide)
   intro id st1 hi1 _ _ _ hm1 hty
   have hr := real_of_eq hty (by decide)
   apply FSafe.bind
@@ -348,41 +409,43 @@ theorem parseTemplate_ok {fuel : Nat} (ih : FileSpecs AP EL S pf ef N fuel) (tok
   apply boolAttr_safe hz attrs _ _ st2 _ hi2
   intro priv
   apply FSafe.bind
-  apply fexpect_safe hz hi2
+  apply fexpect_safe hz hi2 (by decide)
   intro rd st3 hi3 _ _ _ hm3 _
   apply FSafe.bind
   apply (ih.itemListLoop _ _ _ st3 childrenOK_nil hi3 (by omega) (by omega)).mono
-  intro body st4 ⟨hlst4, hi4, _, hm4⟩
+  intro body st4 ⟨hlst4, hi4, _, hm4, hu4⟩
   apply FSafe.bind
   apply fget_safe
   apply FSafe.bind
-  apply fexpect_safe hz hi4
+  apply fexpect_safe hz (upw% hi4) (by decide)
   intro rd2 st5 hi5 _ _ _ hm5 _
   exact FSafe.pure ⟨trivial, hi5, by omega⟩
 
 theorem parseLet_ok {fuel : Nat} (ih : FileSpecs AP EL S pf ef N fuel) (token : Item) (st : FState)
     (hi : Inv EL S st.p) (hn : mu st.p ≤ N) (hf : 8 * mu st.p + 20 ≤ fuel + 1) :
-    FSafe AP S (parseLet pf ef (fuel + 1) token) st (NPost EL S st) := by
+    FSafe AP EL S (parseLet pf ef (fuel + 1) token) st (NPost EL S st) := by
   unfold FileParser.parseLet
   apply FSafe.bind
-  apply fexpect_safe hz hi
+  apply fexpect_safe hz hi (by decide)
   intro name st1 hi1 hsn _ _ hm1 hty
   have hr := real_of_eq hty (by decide)
   apply FSafe.bind
   apply fpeek_safe hz hi1
   intro pk st2 hi2 hs2 hm2 hd2 _
   split
-  · apply FSafe.bind
+  · rename_i hcol
+    apply FSafe.bind
     apply fnext_safe hz hi2
-    intro c st3 hi3 _ _ _ hm3 _
+    intro c st3 hi3 _ _ ht3 hm3 he3
+    have hrc : real c = 1 := by rw [he3 pk hd2]; exact real_of_beq hcol (by decide)
     apply FSafe.bind
     apply ftail1_safe (val_ne1 (hwf name hsn) (Or.inl hty))
     intro _ nm _
     apply FSafe.bind
-    apply parseExpr0_safe hz pf ef N hN hwf hi3 (by omega)
+    apply parseExpr0_safe hz pf ef N hN hwf (upw% hi3) (by omega)
     intro e st4 hi4 hm4
     apply FSafe.bind
-    apply fexpect_safe hz hi4
+    apply fexpect_safe hz hi4 (by decide)
     intro rd st5 hi5 _ _ _ hm5 _
     exact FSafe.pure ⟨trivial, hi5, by omega⟩
   · apply FSafe.bind
@@ -396,17 +459,17 @@ theorem parseLet_ok {fuel : Nat} (ih : FileSpecs AP EL S pf ef N fuel) (token : 
       apply ftail1_safe (val_ne1 (hwf name hsn) (Or.inl hty))
       intro _ nm _
       apply FSafe.bind
-      apply (ih.itemListLoop _ _ _ st4 childrenOK_nil hi4 (by omega) (by omega)).mono
-      intro body st5 ⟨hlst5, hi5, _, hm5⟩
+      apply (ih.itemListLoop _ _ _ st4 childrenOK_nil (upw% hi4) (by omega) (by omega)).mono
+      intro body st5 ⟨hlst5, hi5, _, hm5, hu5⟩
       apply FSafe.bind
-      apply fexpect_safe hz hi5
+      apply fexpect_safe hz (upw% hi5) (by decide)
       intro rd st6 hi6 _ _ _ hm6 _
       exact FSafe.pure ⟨trivial, hi6, by omega⟩
     · exact funexpected_safe hi4 hs4
 
 theorem ifLoop_ok {fuel : Nat} (ih : FileSpecs AP EL S pf ef N fuel) (pos : Nat) (isElse : Bool) (conds : NodeList)
     (st : FState) (hi : Inv EL S st.p) (hn : mu st.p ≤ N) (hf : 8 * mu st.p + 20 ≤ fuel + 1) :
-    FSafe AP S (ifLoop pf ef (fuel + 1) pos isElse conds) st (NPost EL S st) := by
+    FSafe AP EL S (ifLoop pf ef (fuel + 1) pos isElse conds) st (NPost EL S st) := by
   unfold FileParser.ifLoop
   apply FSafe.bind
   apply FSafe.mono (Q := fun _ st' => Inv EL S st'.p ∧ mu st'.p ≤ mu st.p)
@@ -418,78 +481,80 @@ theorem ifLoop_ok {fuel : Nat} (ih : FileSpecs AP EL S pf ef N fuel) (pos : Nat)
     · exact FSafe.pure ⟨hi, Nat.le_refl _⟩
   · intro ce st1 ⟨hi1, hm1⟩
     apply FSafe.bind
-    apply fexpect_safe hz hi1
+    apply fexpect_safe hz hi1 (by decide)
     intro rd st2 hi2 _ _ _ hm2 hty
     have hr := real_of_eq hty (by decide)
     apply FSafe.bind
     apply (ih.itemListLoop _ _ _ st2 childrenOK_nil hi2 (by omega) (by omega)).mono
-    intro body st3 ⟨hlst3, hi3, hpc3, hm3⟩
+    intro body st3 ⟨hlst3, hi3, hpc3, hm3, hu3⟩
     simp only
     apply FSafe.bind
     apply fbackup_safe hi3 hpc3
-    intro st4 hi4 hm4 _
+    intro st4 hi4 hm4 hd4
     apply FSafe.bind
     apply fnext_safe hz hi4
-    intro t st5 hi5 hs5 _ _ hm5 _
+    intro t st5 hi5 hs5 _ ht5 hm5 he5
+    have hrt : real t = 1 := by rw [he5 _ hd4]; exact real_of_contains hu3 (by decide)
     split
-    · apply (ih.ifLoop _ _ _ st5 hi5 (by omega) (by omega)).mono
+    · apply (ih.ifLoop _ _ _ st5 (upw% hi5) (by omega) (by omega)).mono
       intro r st6 ⟨c, a, b⟩
       exact ⟨c, a, by omega⟩
     split
-    · apply (ih.ifLoop _ _ _ st5 hi5 (by omega) (by omega)).mono
+    · apply (ih.ifLoop _ _ _ st5 (upw% hi5) (by omega) (by omega)).mono
       intro r st6 ⟨c, a, b⟩
       exact ⟨c, a, by omega⟩
     split
     · apply FSafe.bind
-      apply fexpect_safe hz hi5
+      apply fexpect_safe hz (upw% hi5) (by decide)
       intro rd2 st6 hi6 _ _ _ hm6 _
       exact FSafe.pure ⟨trivial, hi6, by omega⟩
-    · apply (ih.ifLoop _ _ _ st5 hi5 (by omega) (by omega)).mono
+    · apply (ih.ifLoop _ _ _ st5 (upw% hi5) (by omega) (by omega)).mono
       intro r st6 ⟨c, a, b⟩
       exact ⟨c, a, by omega⟩
 
 theorem parseFor_ok {fuel : Nat} (ih : FileSpecs AP EL S pf ef N fuel) (token : Item) (st : FState)
     (hi : Inv EL S st.p) (hn : mu st.p ≤ N) (hf : 8 * mu st.p + 20 ≤ fuel + 1) :
-    FSafe AP S (parseFor pf ef (fuel + 1) token) st (NPost EL S st) := by
+    FSafe AP EL S (parseFor pf ef (fuel + 1) token) st (NPost EL S st) := by
   unfold FileParser.parseFor
   apply FSafe.bind
-  apply fexpect_safe hz hi
+  apply fexpect_safe hz hi (by decide)
   intro v st1 hi1 hsv _ _ hm1 hty
   have hr := real_of_eq hty (by decide)
   apply FSafe.bind
-  apply fexpect_safe hz hi1
-  intro intok st2 hi2 hs2 _ _ hm2 _
+  apply fexpect_safe hz hi1 (by decide)
+  intro intok st2 hi2 hs2 _ _ hm2 hty2
   split
-  · exact funexpected_safe hi2 hs2
+  · exact funexpected_safe' hs2 (fun _ => real_valid (real_of_eq hty2 (by decide)))
   · apply FSafe.bind
     apply parseExpr0_safe hz pf ef N hN hwf hi2 (by omega)
     intro coll st3 hi3 hm3
     apply FSafe.bind
-    apply fexpect_safe hz hi3
+    apply fexpect_safe hz hi3 (by decide)
     intro rd st4 hi4 _ _ _ hm4 _
     apply FSafe.bind
     apply (ih.itemListLoop _ _ _ st4 childrenOK_nil hi4 (by omega) (by omega)).mono
-    intro body st5 ⟨hlst5, hi5, hpc5, hm5⟩
+    intro body st5 ⟨hlst5, hi5, hpc5, hm5, hu5⟩
     apply FSafe.bind
     apply fbackup_safe hi5 hpc5
-    intro st6 hi6 hm6 _
+    intro st6 hi6 hm6 hd6
     apply FSafe.bind
     apply fnext_safe hz hi6
-    intro t st7 hi7 hs7 _ _ hm7 _
+    intro t st7 hi7 hs7 _ ht7 hm7 he7
+    have hrt : real t = 1 := by rw [he7 _ hd6]; exact real_of_contains hu5 (by decide)
     apply FSafe.bind
     apply FSafe.mono (Q := fun _ st' => Inv EL S st'.p ∧ mu st'.p ≤ mu st7.p)
     · split
       · apply FSafe.bind
-        apply fexpect_safe hz hi7
+        apply fexpect_safe hz (upw% hi7) (by decide)
         intro rd2 st8 hi8 _ _ _ hm8 _
         apply FSafe.bind
         apply (ih.itemListLoop _ _ _ st8 childrenOK_nil hi8 (by omega) (by omega)).mono
-        intro b st9 ⟨hlst9, hi9, _, hm9⟩
-        exact FSafe.pure ⟨hi9, by omega⟩
-      · exact FSafe.pure ⟨hi7, Nat.le_refl _⟩
+        intro b st9 ⟨hlst9, hi9, _, hm9, hu9⟩
+        exact FSafe.pure ⟨(upw% hi9), by omega⟩
+      · exact FSafe.pure ⟨(upw% hi7), Nat.le_refl _⟩
     · intro ie st8 ⟨hi8, hm8⟩
       apply FSafe.bind
-      apply fexpect_safe hz hi8
+      apply fexpect_safe hz hi8 (by decide)
       intro rd3 st9 hi9 _ _ _ hm9 _
       apply FSafe.bind
       apply ftail1_safe (val_ne1 (hwf v hsv) (Or.inl hty))
@@ -497,37 +562,37 @@ theorem parseFor_ok {fuel : Nat} (ih : FileSpecs AP EL S pf ef N fuel) (token : 
       exact FSafe.pure ⟨trivial, hi9, by omega⟩
 
 theorem parseSwitch_ok {fuel : Nat} (ih : FileSpecs AP EL S pf ef N fuel) (token : Item) (endT : ItemType)
-    (hend : endT ≠ .tInvalid) (st : FState)
+    (hend : midT endT = true) (st : FState)
     (hi : Inv EL S st.p) (hn : mu st.p ≤ N) (hf : 8 * mu st.p + 19 ≤ fuel + 1) :
-    FSafe AP S (parseSwitch pf ef (fuel + 1) token endT) st (SwPost EL S st) := by
+    FSafe AP EL S (parseSwitch pf ef (fuel + 1) token endT) st (SwPost EL S st) := by
   unfold FileParser.parseSwitch
   apply FSafe.bind
   apply parseExpr0_safe hz pf ef N hN hwf hi hn
   intro v st1 hi1 hm1
   apply FSafe.bind
-  apply fexpect_safe hz hi1
+  apply fexpect_safe hz hi1 (by decide)
   intro rd st2 hi2 _ _ _ hm2 _
   apply (ih.switchLoop _ _ _ _ st2 hend casesOK_nil hi2 (by omega) (by omega)).mono
   intro r st3 ⟨c, a, b⟩
   exact ⟨c, a, by omega⟩
 
 theorem switchLoop_ok {fuel : Nat} (ih : FileSpecs AP EL S pf ef N fuel) (pos : Nat) (value : Expr) (endT : ItemType)
-    (cases : NodeList) (st : FState) (hend : endT ≠ .tInvalid) (hcs : casesOK cases)
+    (cases : NodeList) (st : FState) (hend : midT endT = true) (hcs : casesOK cases)
     (hi : Inv EL S st.p) (hn : mu st.p ≤ N) (hf : 8 * mu st.p + 20 ≤ fuel + 1) :
-    FSafe AP S (switchLoop pf ef (fuel + 1) pos value endT cases) st (SwPost EL S st) := by
+    FSafe AP EL S (switchLoop pf ef (fuel + 1) pos value endT cases) st (SwPost EL S st) := by
   unfold FileParser.switchLoop
   apply FSafe.bind
   apply fnext_safe hz hi
   intro tok st1 hi1 hs1 _ _ hm1 _
   split
   · rename_i hc; have hr := real_of_beq hc (by decide)
-    apply (ih.switchLoop _ _ _ _ st1 hend hcs hi1 (by omega) (by omega)).mono
+    apply (ih.switchLoop _ _ _ _ st1 hend hcs (upw% hi1) (by omega) (by omega)).mono
     intro r st2 ⟨c, a, b⟩
     exact ⟨c, a, by omega⟩
   split
   · rename_i hc; have hr := real_of_beq hc (by decide)
     split
-    · apply (ih.switchLoop _ _ _ _ st1 hend hcs hi1 (by omega) (by omega)).mono
+    · apply (ih.switchLoop _ _ _ _ st1 hend hcs (upw% hi1) (by omega) (by omega)).mono
       intro r st2 ⟨c, a, b⟩
       exact ⟨c, a, by omega⟩
     · exact funexpected_safe hi1 hs1
@@ -539,7 +604,7 @@ theorem switchLoop_ok {fuel : Nat} (ih : FileSpecs AP EL S pf ef N fuel) (pos : 
       · exact real_of_beq h (by decide)
       · exact real_of_beq h (by decide)
     apply FSafe.bind
-    apply (ih.caseLoop tok [] st1 hi1 (by omega) (by omega)).mono
+    apply (ih.caseLoop tok [] st1 (upw% hi1) (by omega) (by omega)).mono
     intro c st2 ⟨hc2, hi2, hm2⟩
     obtain ⟨cp, cvs, cb, rfl, hcb⟩ := hc2
     apply (ih.switchLoop _ _ _ _ st2 hend
@@ -548,20 +613,21 @@ theorem switchLoop_ok {fuel : Nat} (ih : FileSpecs AP EL S pf ef N fuel) (pos : 
     intro r st3 ⟨c, a, b⟩
     exact ⟨c, a, by omega⟩
   split
-  · apply FSafe.bind
-    apply fexpect_safe hz hi1
+  · rename_i hce; have hr := real_of_beq hce hend
+    apply FSafe.bind
+    apply fexpect_safe hz (upw% hi1) (by decide)
     intro rd st2 hi2 _ _ _ hm2 _
     exact FSafe.pure ⟨⟨_, _, _, rfl, hcs⟩, hi2, by omega⟩
   split
   · rename_i hc; have hr := real_of_beq hc (by decide)
-    apply (ih.switchLoop _ _ _ _ st1 hend hcs hi1 (by omega) (by omega)).mono
+    apply (ih.switchLoop _ _ _ _ st1 hend hcs (upw% hi1) (by omega) (by omega)).mono
     intro r st2 ⟨c, a, b⟩
     exact ⟨c, a, by omega⟩
   · exact funexpected_safe hi1 hs1
 
 theorem caseLoop_ok {fuel : Nat} (ih : FileSpecs AP EL S pf ef N fuel) (token : Item) (values : List Expr)
     (st : FState) (hi : Inv EL S st.p) (hn : mu st.p ≤ N) (hf : 8 * mu st.p + 20 ≤ fuel + 1) :
-    FSafe AP S (caseLoop pf ef (fuel + 1) token values) st (CasePost EL S st) := by
+    FSafe AP EL S (caseLoop pf ef (fuel + 1) token values) st (CasePost EL S st) := by
   unfold FileParser.caseLoop
   apply FSafe.bind
   apply FSafe.mono (Q := fun _ st' => Inv EL S st'.p ∧ mu st'.p ≤ mu st.p)
@@ -577,14 +643,14 @@ theorem caseLoop_ok {fuel : Nat} (ih : FileSpecs AP EL S pf ef N fuel) (token : 
     intro tok st2 hi2 hs2 _ _ hm2 _
     split
     · rename_i hc; have hr := real_of_beq hc (by decide)
-      apply (ih.caseLoop _ _ st2 hi2 (by omega) (by omega)).mono
+      apply (ih.caseLoop _ _ st2 (upw% hi2) (by omega) (by omega)).mono
       intro r st3 ⟨c, a, b⟩
       exact ⟨c, a, by omega⟩
     split
     · rename_i hc; have hr := real_of_beq hc (by decide)
       apply FSafe.bind
-      apply (ih.itemListLoop _ _ _ st2 childrenOK_nil hi2 (by omega) (by omega)).mono
-      intro body st3 ⟨hlst3, hi3, hpc3, hm3⟩
+      apply (ih.itemListLoop _ _ _ st2 childrenOK_nil (upw% hi2) (by omega) (by omega)).mono
+      intro body st3 ⟨hlst3, hi3, hpc3, hm3, hu3⟩
       apply FSafe.bind
       apply fbackup_safe hi3 hpc3
       intro st4 hi4 hm4 _
@@ -594,7 +660,7 @@ theorem caseLoop_ok {fuel : Nat} (ih : FileSpecs AP EL S pf ef N fuel) (token : 
 
 theorem parseCall_ok {fuel : Nat} (ih : FileSpecs AP EL S pf ef N fuel) (token : Item) (st : FState)
     (hi : Inv EL S st.p) (hn : mu st.p ≤ N) (hf : 8 * mu st.p + 20 ≤ fuel + 1) :
-    FSafe AP S (parseCall pf ef (fuel + 1) token) st (NPost EL S st) := by
+    FSafe AP EL S (parseCall pf ef (fuel + 1) token) st (NPost EL S st) := by
   unfold FileParser.parseCall
   apply FSafe.bind
   apply parseCallHead_safe hz pf hlex fuel st _ hi (by omega)
@@ -605,28 +671,28 @@ theorem parseCall_ok {fuel : Nat} (ih : FileSpecs AP EL S pf ef N fuel) (token :
   apply fnext_safe hz hi1
   intro tok st2 hi2 hs2 _ _ hm2 _
   split
-  · exact FSafe.pure ⟨trivial, hi2, by omega⟩
+  · exact FSafe.pure ⟨trivial, (upw% hi2), by omega⟩
   split
   · rename_i hc; have hr := real_of_beq hc (by decide)
     apply FSafe.bind
-    apply (ih.callParamsLoop _ st2 hi2 (by omega) (by omega)).mono
+    apply (ih.callParamsLoop _ st2 (upw% hi2) (by omega) (by omega)).mono
     intro body st3 ⟨hi3, hm3⟩
     apply FSafe.bind
-    apply fexpect_safe hz hi3
+    apply fexpect_safe hz hi3 (by decide)
     intro a st4 hi4 _ _ _ hm4 _
     apply FSafe.bind
-    apply fexpect_safe hz hi4
+    apply fexpect_safe hz hi4 (by decide)
     intro b st5 hi5 _ _ _ hm5 _
     apply FSafe.bind
-    apply fexpect_safe hz hi5
+    apply fexpect_safe hz hi5 (by decide)
     intro c st6 hi6 _ _ _ hm6 _
     exact FSafe.pure ⟨trivial, hi6, by omega⟩
   · exact funexpected_safe hi2 hs2
 
 theorem orphanLoop_ok {fuel : Nat} (ih : FileSpecs AP EL S pf ef N fuel) (initial : Item) (st : FState)
-    (hs : S initial) (hi : Inv EL S st.p) (hpc : st.p.peekCount ≤ 1) (htop : top st.p = initial)
+    (hs : S initial) (hi : InvW EL S st.p) (hpc : st.p.peekCount ≤ 1) (htop : top st.p = initial)
     (hf : 8 * (mu st.p + real initial) + 19 ≤ fuel + 1) :
-    FSafe AP S (orphanLoop pf ef (fuel + 1) initial) st (fun tok st' => S tok ∧ Inv EL S st'.p ∧ st'.p.peekCount ≤ 1 ∧
+    FSafe AP EL S (orphanLoop pf ef (fuel + 1) initial) st (fun tok st' => S tok ∧ InvW EL S st'.p ∧ st'.p.peekCount ≤ 1 ∧
       top st'.p = tok ∧ mu st'.p + real tok ≤ mu st.p + real initial) := by
   unfold FileParser.orphanLoop
   split
@@ -637,7 +703,7 @@ theorem orphanLoop_ok {fuel : Nat} (ih : FileSpecs AP EL S pf ef N fuel) (initia
     split
     · exact funexpected_safe hi hs
     · apply FSafe.bind
-      apply nextNonComment_safe hz fuel st _ hi (by omega)
+      apply nextNonComment_safe hz fuel st _ (upw% hi) (by omega)
       intro nxt st1 hs1 hi1 hpc1 ht1 hm1
       apply (ih.orphanLoop nxt st1 hs1 hi1 hpc1 ht1 (by omega)).mono
       intro tok st2 ⟨a, b, c, d, e⟩
@@ -646,7 +712,7 @@ theorem orphanLoop_ok {fuel : Nat} (ih : FileSpecs AP EL S pf ef N fuel) (initia
 
 theorem callParamsLoop_ok {fuel : Nat} (ih : FileSpecs AP EL S pf ef N fuel) (params : NodeList) (st : FState)
     (hi : Inv EL S st.p) (hn : mu st.p ≤ N) (hf : 8 * mu st.p + 20 ≤ fuel + 1) :
-    FSafe AP S (callParamsLoop pf ef (fuel + 1) params) st (FPost EL S st) := by
+    FSafe AP EL S (callParamsLoop pf ef (fuel + 1) params) st (FPost EL S st) := by
   unfold FileParser.callParamsLoop
   apply FSafe.bind
   apply nextNonComment_safe hz fuel st _ hi (by omega)
@@ -660,11 +726,11 @@ theorem callParamsLoop_ok {fuel : Nat} (ih : FileSpecs AP EL S pf ef N fuel) (pa
     have hc' : initial.typ = .tLeftDelim := by simpa using hc
     have hr := real_of_eq hc' (by decide)
     apply FSafe.bind
-    apply fnext_safe hz hi2
+    apply fnext_safe hz (upw% hi2)
     intro cmd st3 hi3 hs3 hpc3 ht3 hm3 _
     split
     · apply FSafe.bind
-      apply fbackup2_safe hi3 hs2 (by rw [hc']; decide) (by omega)
+      apply fbackup2_safe hi3 hs2 (by rw [hc']; decide) (fun _ => real_valid hr) (by omega)
       intro st4 hi4 hm4 _
       rw [ht3] at hm4
       exact FSafe.pure ⟨hi4, by omega⟩
@@ -674,7 +740,7 @@ theorem callParamsLoop_ok {fuel : Nat} (ih : FileSpecs AP EL S pf ef N fuel) (pa
       have hp' : cmd.typ = .tParam := by simpa using hp
       have hrp := real_of_eq hp' (by decide)
       apply FSafe.bind
-      apply fexpect_safe hz hi3
+      apply fexpect_safe hz (upw% hi3) (by decide)
       intro firstIdent st4 hi4 hs4 hpc4 ht4 hm4 hty4
       have hr4 := real_of_eq hty4 (by decide)
       apply FSafe.bind
@@ -682,20 +748,20 @@ theorem callParamsLoop_ok {fuel : Nat} (ih : FileSpecs AP EL S pf ef N fuel) (pa
       intro tok st5 hi5 hs5 hpc5 ht5 hm5 _
       split
       · apply FSafe.bind
-        apply parseExpr0_safe hz pf ef N hN hwf hi5 (by omega)
+        apply parseExpr0_safe hz pf ef N hN hwf (upw% hi5) (by omega)
         intro value st6 hi6 hm6
         apply FSafe.bind
-        apply fexpect_safe hz hi6
+        apply fexpect_safe hz hi6 (by decide)
         intro rd st7 hi7 _ _ _ hm7 _
         apply (ih.callParamsLoop _ st7 hi7 (by omega) (by omega)).mono
         intro r st8 ⟨a, b⟩
         exact ⟨a, by omega⟩
       split
       · apply FSafe.bind
-        apply (ih.itemListLoop _ _ _ st5 childrenOK_nil hi5 (by omega) (by omega)).mono
-        intro value st6 ⟨hlst6, hi6, _, hm6⟩
+        apply (ih.itemListLoop _ _ _ st5 childrenOK_nil (upw% hi5) (by omega) (by omega)).mono
+        intro value st6 ⟨hlst6, hi6, _, hm6, hu6⟩
         apply FSafe.bind
-        apply fexpect_safe hz hi6
+        apply fexpect_safe hz (upw% hi6) (by decide)
         intro rd st7 hi7 _ _ _ hm7 _
         apply (ih.callParamsLoop _ st7 hi7 (by omega) (by omega)).mono
         intro r st8 ⟨a, b⟩
@@ -712,7 +778,7 @@ theorem callParamsLoop_ok {fuel : Nat} (ih : FileSpecs AP EL S pf ef N fuel) (pa
           split
           · rename_i he
             apply FSafe.bind
-            apply fbackup2_safe hi5 hs4 (by rw [hty4]; decide) (by omega)
+            apply fbackup2_safe hi5 hs4 (by rw [hty4]; decide) (fun _ => real_valid hr4) (by omega)
             intro st6 hi6 hm6 _
             rw [ht5] at hm6
             have := real_le tok
@@ -733,13 +799,13 @@ theorem callParamsLoop_ok {fuel : Nat} (ih : FileSpecs AP EL S pf ef N fuel) (pa
             subst h8
             split
             · apply FSafe.bind
-              apply fexpect_safe hz hi7
+              apply fexpect_safe hz hi7 (by decide)
               intro rd st9 hi9 _ _ _ hm9 _
               apply FSafe.bind
               apply (ih.itemListLoop _ _ _ st9 childrenOK_nil hi9 (by omega) (by omega)).mono
-              intro value st10 ⟨hlst10, hi10, _, hm10⟩
+              intro value st10 ⟨hlst10, hi10, _, hm10, hu10⟩
               apply FSafe.bind
-              apply fexpect_safe hz hi10
+              apply fexpect_safe hz (upw% hi10) (by decide)
               intro rd2 st11 hi11 _ _ _ hm11 _
               apply (ih.callParamsLoop _ st11 hi11 (by omega) (by omega)).mono
               intro r st12 ⟨a, b⟩
@@ -748,7 +814,7 @@ theorem callParamsLoop_ok {fuel : Nat} (ih : FileSpecs AP EL S pf ef N fuel) (pa
               apply parseQuotedExpr_safe hz pf hlex hi7
               intro value
               apply FSafe.bind
-              apply fexpect_safe hz hi7
+              apply fexpect_safe hz hi7 (by decide)
               intro rd st9 hi9 _ _ _ hm9 _
               apply (ih.callParamsLoop _ st9 hi9 (by omega) (by omega)).mono
               intro r st10 ⟨a, b⟩
@@ -756,7 +822,7 @@ theorem callParamsLoop_ok {fuel : Nat} (ih : FileSpecs AP EL S pf ef N fuel) (pa
 
 theorem parseMsg_ok {fuel : Nat} (ih : FileSpecs AP EL S pf ef N fuel) (token : Item) (st : FState)
     (hi : Inv EL S st.p) (hn : mu st.p ≤ N) (hf : 8 * mu st.p + 20 ≤ fuel + 1) :
-    FSafe AP S (parseMsg pf ef (fuel + 1) token) st (NPost EL S st) := by
+    FSafe AP EL S (parseMsg pf ef (fuel + 1) token) st (NPost EL S st) := by
   unfold FileParser.parseMsg
   apply FSafe.bind
   apply parseAttrs_safe hz _ fuel [] st _ hi (by omega)
@@ -764,7 +830,7 @@ theorem parseMsg_ok {fuel : Nat} (ih : FileSpecs AP EL S pf ef N fuel) (token : 
   split
   · exact ferrorf_safe hi1
   · apply FSafe.bind
-    apply fexpect_safe hz hi1
+    apply fexpect_safe hz hi1 (by decide)
     intro rd st2 hi2 _ _ _ hm2 hty
     have hr := real_of_eq hty (by decide)
     apply FSafe.bind
@@ -778,7 +844,7 @@ theorem parseMsg_ok {fuel : Nat} (ih : FileSpecs AP EL S pf ef N fuel) (token : 
     apply FSafe.bind
     apply fmodify_safe
     generalize hst : ({ st3 with inmsg := false } : FState) = st3'
-    have hi3' : Inv EL S st3'.p := by subst hst; exact hi3
+    have hi3' : Inv EL S st3'.p := by subst hst; exact hi3.up rfl (real_of_contains hm3.2 (by decide))
     have hmm : mu st3'.p = mu st3.p := by subst hst; rfl
     split
     · rename_i hnone
@@ -790,18 +856,18 @@ theorem parseMsg_ok {fuel : Nat} (ih : FileSpecs AP EL S pf ef N fuel) (token : 
       all_goals first
         | exact ferrorf_safe hi3'
         | (apply FSafe.bind
-           apply fexpect_safe hz hi3'
+           apply fexpect_safe hz hi3' (by decide)
            intro rd2 st4 hi4 _ _ _ hm4 _
            exact FSafe.pure ⟨trivial, hi4, by omega⟩)
 
 theorem parsePlural_ok {fuel : Nat} (ih : FileSpecs AP EL S pf ef N fuel) (tok : Item) (st : FState)
-    (hs : S tok) (hi : Inv EL S st.p) (hn : mu st.p ≤ N) (hf : 8 * mu st.p + 20 ≤ fuel + 1) :
-    FSafe AP S (parsePlural pf ef (fuel + 1) tok) st (NPost EL S st) := by
+    (hs : S tok) (hv : EL.lex → valid tok) (hi : Inv EL S st.p) (hn : mu st.p ≤ N) (hf : 8 * mu st.p + 20 ≤ fuel + 1) :
+    FSafe AP EL S (parsePlural pf ef (fuel + 1) tok) st (NPost EL S st) := by
   unfold FileParser.parsePlural
   apply FSafe.bind
   apply fget_safe
   split
-  · exact funexpected_safe hi hs
+  · exact funexpected_safe' hs hv
   · apply FSafe.bind
     apply (ih.parseSwitch tok _ st (by decide) hi hn (by omega)).mono
     intro sw st1 ⟨hsw, hi1, hm1⟩
@@ -839,7 +905,7 @@ theorem fileSpecs_all : ∀ fuel, FileSpecs AP EL S pf ef N fuel := by
       callParamsLoop := fun _ _ _ _ h => by omega
       orphanLoop := fun _ _ _ _ _ _ h => by omega
       parseMsg := fun _ _ _ _ h => by omega
-      parsePlural := fun _ _ _ _ _ h => by omega }
+      parsePlural := fun _ _ _ _ _ _ h => by omega }
   | succ f ih =>
     exact {
       itemListLoop := itemListLoop_ok AP EL S pf ef N hz hN hwf hlex ih
